@@ -246,7 +246,8 @@ def make_history(args):
     from wavespectra.partition.partition import np_ptm3
 
     kind = rng.choice(["ds", "ds", "da"])
-    nf, nd = rng.choice([5, 6, 8]), rng.choice([8, 12])
+    # 7 and 11 directions: a bin width (360/7, 360/11) that float32 cannot represent — a coordinate narrowed in place shows
+    nf, nd = rng.choice([5, 6, 8]), rng.choice([8, 12, 7, 11])
     nt = rng.choice([0, 0, 2])
     freq, _ = gen.gen_freq(rng, nf, kind="irregular")
     dirs0, _ = gen.gen_dirs(rng, nd, order="sorted")
@@ -533,11 +534,70 @@ def run_check():
         if not same(res, exp):
             ck.fail(name, "result differs from the same call in a fresh process", dict(ops=h["ops"], step=i), "stale_result")
     oned_agreement(ck)
+    station_histories(ck)
     ck.extra["observations"] = nobs
     ck.extra["traces_validated_against_impl"] = len(hs)
     ck.assumptions = ["object contents abstracted to version numbers in the model; the harness materialises each version",
                       "results compared bit-for-bit (same code path on identical data), attrs and coordinates included"]
     return ck.finish()
+
+
+def station_histories(ck):
+    """Station datasets: a selection made AFTER another selection (query in the other longitude convention, matches east of 180,
+    consecutive stations, coordinates held in memory) returns what the same selection returns on a freshly built dataset, and so do
+    statistics of the dataset afterwards."""
+    import xarray as xr
+
+    rng = case_rng("C18-stations", ck.seed, 0)
+    n = 30 if ck.tier == "quick" else 300
+    for icase in range(n):
+        ns = rng.choice([3, 4, 5])
+        nf, nd = 4, 6
+        lon0 = sorted(rng.sample([5.0, 40.0, 120.0, 170.0, 185.0, 190.0, 230.0, 300.0, 350.0, 359.5], ns))
+        if rng.random() < 0.5:
+            lon0 = [x - 360.0 if x > 180.0 else x for x in lon0]  # dataset in [-180, 180]
+        lat0 = [rng.choice([-10.0, -2.5, 0.0, 7.5, 20.0]) for _ in range(ns)]
+        E = np.array([gen.gen_spectrum(rng, nf, nd, kind="blobs")[0] + 0.125 for _ in range(ns)])
+        freq, _ = gen.gen_freq(rng, nf, kind="log")
+        dirs, _ = gen.gen_dirs(rng, nd, order="sorted")
+
+        def mk():
+            return xr.Dataset({"efth": (("site", "freq", "dir"), E.copy()), "lon": (("site",), np.array(lon0)), "lat": (("site",), np.array(lat0))},
+                              coords={"site": np.arange(ns), "freq": np.array(freq, dtype=float), "dir": np.array(dirs, dtype=float)})
+
+        def q(conv):
+            k = rng.randrange(ns)
+            x = lon0[k] % 360.0 if conv == 360 else ((lon0[k] + 180.0) % 360.0) - 180.0
+            return [x + rng.choice([0.0, 0.2, -0.2])], [lat0[k] + rng.choice([0.0, 0.1])]
+
+        m1, m2 = rng.choice(["nearest", "idw", "bbox", None]), rng.choice(["nearest", "idw", "bbox", None])
+        (l1, a1), (l2, a2) = q(rng.choice([180, 360])), q(rng.choice([180, 360]))
+        if m1 == "bbox":
+            l1, a1 = [l1[0] - 30.0, l1[0] + 30.0], [a1[0] - 5.0, a1[0] + 5.0]
+        if m2 == "bbox":
+            l2, a2 = [l2[0] - 30.0, l2[0] + 30.0], [a2[0] - 5.0, a2[0] + 5.0]
+        case = dict(icase=icase, lon=lon0, lat=lat0, first=dict(method=m1, lons=l1, lats=a1), second=dict(method=m2, lons=l2, lats=a2))
+
+        def sel(ds, m, lo, la):
+            try:
+                r = ds.spec.sel(lons=lo, lats=la, method=m, tolerance=5.0)
+                return ("ok", np.atleast_1d(r.lon.values).tolist(), np.atleast_1d(r.lat.values).tolist(), np.asarray(r.efth.values).tolist())
+            except Exception as e:  # noqa
+                return ("err", type(e).__name__)
+
+        fresh, used = mk(), mk()
+        exp = sel(fresh, m2, l2, a2)
+        sel(used, m1, l1, a1)
+        got = sel(used, m2, l2, a2)
+        ck.case(("stations", m1, m2, exp[0]), exp[0] == "ok", case)
+        ck.count("station_histories")
+        if json.dumps(got) != json.dumps(exp):
+            ck.fail("sel", f"sel({m2}) after sel({m1}) on the same dataset returns {str(got)[:160]}; on a freshly built dataset {str(exp)[:160]}",
+                    case, "stale_result")
+        else:
+            h1, h2 = np.asarray(mk().spec.hs().values), np.asarray(used.spec.hs().values)
+            if not np.array_equal(h1, h2) or not np.array_equal(np.asarray(used.lon.values), np.array(lon0)):
+                ck.fail("sel", "the dataset's stations / statistics after two selections differ from a freshly built dataset", case, "stale_result")
 
 
 def oned_agreement(ck):
